@@ -199,6 +199,7 @@ func (propC18) Gen(r *Rng, run uint64, tier string) *Plan {
 	}
 	p.Query = tpl.build(selA, selB, durText(rng))
 	p.Tags["template"] = tpl.name
+	p.Tags["selA"], p.Tags["selB"], p.Tags["range"] = selA, selB, durText(rng)
 	p.Params = Params{Start: start, End: end, StepNs: step, Limit: -1}
 	if tpl.metric {
 		if r.Bool(0.25) {
@@ -344,4 +345,28 @@ func (propC18) Check(t *testing.T, p *Plan, st *Stats) *Violation {
 		st.ProbeIf(strings.Count(first.Stdout, "\n") >= 2, "cli_output_several_lines")
 	}
 	return nil
+}
+
+// ShrinkCandidates: plainer templates over the same selections.
+func (propC18) ShrinkCandidates(p *Plan) []*Plan {
+	cur := p.Tags["template"]
+	if cur == "" || p.Tags["selA"] == "" {
+		return nil
+	}
+	ct := c18TemplateByName(cur)
+	var out []*Plan
+	for _, name := range []string{"plain", "keep", "count", "sum_by", "binop_add"} {
+		nt := c18TemplateByName(name)
+		if name == cur || nt.metric != ct.metric || nt.twoSel && !ct.twoSel {
+			continue
+		}
+		c := p.Clone()
+		c.Query = nt.build(p.Tags["selA"], p.Tags["selB"], p.Tags["range"])
+		c.Tags["template"] = name
+		if c.CLI != nil && len(c.CLI.Argv) > 0 {
+			c.CLI.Argv[len(c.CLI.Argv)-1] = c.Query
+		}
+		out = append(out, c)
+	}
+	return out
 }
